@@ -114,6 +114,13 @@ def encryptBlobValue (C : Crypto) (data : Bytes) (key : Envelope) (sidUtf8 : Byt
 def encryptBlob (C : Crypto) (data : Bytes) (key : Envelope) (sidUtf8 : Bytes) (d : Draws) : R Bytes :=
   encryptBlobValue C data key sidUtf8 d >>= fun b => blobPack b true
 
+/-- `_process_get_key_result`: strip exactly the declared auth padding, then decode the NDR64 reply -/
+def processGetKeyResult (stub : Bytes) (padLength : Option Nat) : R Envelope :=
+  let n : Int := match padLength with
+    | some p => if p ≠ 0 then (stub.length : Int) - p else stub.length
+    | none => stub.length
+  getKeyUnpackResponse (Py.sliceTo stub n)
+
 /-! ### the cache-side halves of the public functions -/
 
 /-- what is asked of the DC when the cache cannot answer -/
